@@ -463,6 +463,10 @@ def u_check_data_complete(W, sk):
         W.prove("kept_rows.are_all_rows", frows is rows)
     if not sk["allow_missing"]:
         W.prove("without_allow_missing.row_count_equals_number_of_entries", W.size_eq(frows.n, size))
+        W.prove("without_allow_missing.no_blank_value_accepted", wrap(z3.Not(final.cols["value"].isna_fn(to_int(k1)))), detail="returning without allow_missing_values means no kept row has a blank value")
+    # accepted tables have no duplicated label combination among the kept rows
+    k2 = W.fresh_int("row2", 0, frows.n)
+    W.prove("accepted_tables_have_no_duplicate_labels", core.simplies(k1 != k2, wrap(z3.Not(z3.And(*[fcell[d.letter](to_int(k1)) == fcell[d.letter](to_int(k2)) for d in dims])))))
 
 
 def _distinct_instance(W, table, itemf, dims, i, j):
